@@ -223,6 +223,61 @@ fn vectors(rep: &mut Report) {
         }
     }
     rep.sample(json!({"subject": "test_vectors.json", "case": {"input_len": 1025, "fields": ["hash", "keyed_hash", "derive_key"], "bytes_each": 131}}));
+    #[cfg(feature = "std")]
+    generator(rep, &text, &published);
+}
+
+/// The test_vectors crate itself (the generator ports and CI use): its constants, its input painter
+/// and its generate_json() must describe the same published vectors.
+#[cfg(feature = "std")]
+fn generator(rep: &mut Report, file_text: &str, published: &[usize; 35]) {
+    let bad = |rep: &mut Report, key: &str, what: String| {
+        rep.violation(key, what, json!({"property": "C15", "engine": "core/refimpl", "subject": "test_vectors.json", "check": key}));
+    };
+    rep.inc("evaluations");
+    rep.inc("distinct_nontrivial");
+    if test_vectors::TEST_CASES != &published[..] {
+        bad(rep, "test_vectors:lib:TEST_CASES", format!("test_vectors::TEST_CASES is {:?}", test_vectors::TEST_CASES));
+    }
+    if &test_vectors::TEST_KEY[..] != b"whats the Elvish word for friend" || test_vectors::TEST_CONTEXT != "BLAKE3 2019-12-27 16:29:52 test vectors context" || test_vectors::OUTPUT_LEN != 131 {
+        bad(rep, "test_vectors:lib:constants", "TEST_KEY / TEST_CONTEXT / OUTPUT_LEN differ from the published ones".into());
+    }
+    let mut buf = vec![0xEEu8; 1000];
+    test_vectors::paint_test_input(&mut buf);
+    if buf != vcommon::stream_a(1000) {
+        bad(rep, "test_vectors:lib:paint_test_input", "paint_test_input is not i % 251".into());
+    }
+    match vcommon::catch(test_vectors::generate_json) {
+        Ok(generated) => {
+            rep.inc("evaluations");
+            rep.inc("distinct_nontrivial");
+            if generated != file_text {
+                let at = generated.bytes().zip(file_text.bytes()).position(|(a, b)| a != b).unwrap_or(generated.len().min(file_text.len()));
+                bad(rep, "test_vectors:generator-differs-from-file", format!("generate_json() differs from the checked-in test_vectors.json at byte {} ({} vs {} bytes)", at, generated.len(), file_text.len()));
+            }
+            // and what it generates is the spec, whatever the file says
+            if let Ok(v) = vcommon::serde_json::from_str::<Value>(&generated) {
+                let kb: [u8; 32] = *b"whats the Elvish word for friend";
+                for c in v["cases"].as_array().cloned().unwrap_or_default() {
+                    let n = c["input_len"].as_u64().unwrap_or(0) as usize;
+                    if n > (1 << 22) {
+                        continue;
+                    }
+                    let data = vcommon::stream_a(n);
+                    for (field, m) in [("hash", b3spec::Mode::hash()), ("keyed_hash", b3spec::Mode::keyed(&kb)), ("derive_key", b3spec::Mode::derive(b"BLAKE3 2019-12-27 16:29:52 test vectors context"))] {
+                        rep.inc("evaluations");
+                        rep.inc("spec_comparisons");
+                        if c[field].as_str() != Some(vcommon::hex(&b3spec::xof(&m, &data, 0, 131)).as_str()) {
+                            bad(rep, "test_vectors:generator-value", format!("generate_json(): case input_len={} field {} differs from the spec", n, field));
+                        }
+                    }
+                }
+            } else {
+                bad(rep, "test_vectors:generator-not-json", "generate_json() does not produce JSON".into());
+            }
+        }
+        Err(m) => bad(rep, "test_vectors:generator-panics", m),
+    }
 }
 
 pub fn replay(v: &Value) -> bool {
